@@ -241,3 +241,7 @@ mod tests {
         Ok(())
     }
 }
+
+#[cfg(kani)]
+#[path = "/verif/harness/util/variant_builder.rs"]
+mod verif_kani;
